@@ -526,6 +526,12 @@ type client struct {
 	onRedirection  func(req *simpleRequest, resp *RespValue)
 	onClusterDown  func(req *simpleRequest, resp *RespValue)
 
+	// sendMu and closed make sure every request accepted by Send is seen by
+	// the final drain: closed is set (under the write lock) after both loops
+	// have exited and before the queues are drained for the last time.
+	sendMu sync.RWMutex
+	closed bool
+
 	quitOnce sync.Once
 	quit     chan struct{}
 	done     chan struct{}
@@ -601,6 +607,10 @@ func (c *client) Start() {
 	})
 	<-writeDone
 	verifpoint.HitArg("redis.client.start.before-drain", c)
+	// stop accepting requests, everything queued so far is answered below.
+	c.sendMu.Lock()
+	c.closed = true
+	c.sendMu.Unlock()
 	c.drainRequests()
 	verifpoint.HitArg("redis.client.start.after-drain", c)
 	close(c.done)
@@ -608,12 +618,23 @@ func (c *client) Start() {
 
 func (c *client) Send(req *simpleRequest) {
 	verifpoint.HitArg("redis.client.send.enter", c)
+	c.sendMu.RLock()
+	defer c.sendMu.RUnlock()
+	if c.closed {
+		req.SetResponse(newError(backendExited))
+		return
+	}
 	select {
 	case <-c.quit:
 		req.SetResponse(newError(backendExited))
 	default:
 		verifpoint.HitArg("redis.client.send.before-enqueue", c)
-		c.pendingReqs <- req
+		// NOTE: the queue may be full while the writer has already gone.
+		select {
+		case c.pendingReqs <- req:
+		case <-c.quit:
+			req.SetResponse(newError(backendExited))
+		}
 	}
 }
 
@@ -650,6 +671,8 @@ func (c *client) loopWrite() {
 		verifpoint.HitArg("redis.client.write.before-processing-enqueue", c)
 		select {
 		case <-c.quit:
+			// the request in hand is in neither queue, answer it here.
+			req.SetResponse(newError(backendExited))
 			return
 		case c.processingReqs <- req:
 		}
